@@ -213,6 +213,51 @@ def attrs_case(arg):
     return {'where': where, 'src': full, 'have': sorted(have), 'missing': sorted(have - offered)}
 
 
+def render_hierarchy(h):
+    """h = {'classes': [[name, [bases], [attrs], [methods], [selfattrs]]...] in definition order, 'leaf': name}"""
+    src = []
+    for name, bases, attrs, meths, selfs in h['classes']:
+        src.append('class %s%s:' % (name, '(%s)' % ', '.join(bases) if bases else ''))
+        body = ['    %s = 0' % a for a in attrs] + ['    def %s(self): pass' % m for m in meths]
+        if selfs:
+            body += ['    def __init__(self):'] + (['        super().__init__()'] if bases else []) + \
+                    ['        self.%s = 0' % a for a in selfs]
+        src += body or ['    pass']
+    src.append('obj_zz = %s()' % h['leaf'])
+    return '\n'.join(src)
+
+
+def make_hierarchy(rng):
+    """A random linearizable class DAG (<= 6 classes, multiple inheritance on several levels): every class defines its
+    own attributes; the leaf instance must offer all of them."""
+    n = rng.randrange(3, 7)
+    names = ['Hz%d' % i for i in range(n)]
+    classes = []
+    for i, nm in enumerate(names):
+        k = rng.choice([0, 1, 1, 2, 2, 3]) if i else 0
+        bases = sorted(rng.sample(names[:i], min(k, i)), key=names.index, reverse=True)
+        classes.append([nm, bases, ['ca_%s' % nm.lower()], ['me_%s' % nm.lower()],
+                        ['sa_%s' % nm.lower()] if rng.random() < 0.5 else []])
+    return {'classes': classes, 'leaf': names[-1]}
+
+
+def hierarchy_case(h):
+    src = render_hierarchy(h)
+    g = {}
+    try:
+        exec(compile(src, '<c04h>', 'exec'), g)
+    except TypeError:
+        return {'skip': 'MRO not linearizable'}
+    have = set(x for x in dir(g['obj_zz']) if x[:3] in ('ca_', 'me_', 'sa_'))
+    full = src + '\nobj_zz.'
+    lines = full.split('\n')
+    r = jutil.safe(lambda: jutil.script(full).complete(len(lines), len(lines[-1])))
+    if r[0] == 'exc':
+        return {'exc': r[2], 'src': full}
+    offered = set(c.name for c in r[1])
+    return {'src': full, 'have': sorted(have), 'missing': sorted(have - offered)}
+
+
 # ---------------------------------------------------------------- main
 def run(ctx):
     quick = ctx.quick
@@ -338,6 +383,37 @@ def run(ctx):
         elif r['missing']:
             ctx.violation('attrs-missing:' + ','.join(sorted(set(r['where'][m] for m in r['missing']))),
                           'run-time attributes defined in the sources are not offered: %s' % r['missing'], r)
+    # class hierarchies with multiple inheritance on several levels: every hierarchy of 5 classes enumerated by TLC
+    # (spec/Mro.tla: the code's py__mro__ listing covers exactly the ancestors), plus random larger ones
+    mcfg = os.path.join(ctx.tmp, 'mro.cfg')
+    with open(mcfg, 'w') as f:
+        f.write('INIT Init\nNEXT Next\nCONSTANTS\n  N = 5\n  MaxBases = 2\n  EmitMod = %d\n  EmitRem = %d\n'
+                'INVARIANT Covers\nINVARIANT NoDup\nCONSTRAINT Emit\nCHECK_DEADLOCK FALSE\n' % (1, 0))
+    mres = run_tlc('Mro', mcfg, workers=1, timeout=1200)
+    ctx.add_tlc(mres, 'class hierarchies: py__mro__ listing covers the ancestors')
+    if mres.violated:
+        ctx.violation('design:%s' % mres.violated, 'Mro.tla: the listing misses an ancestor', {'trace': mres.trace[-1:]})
+    hs = []
+    for c in cases(mres):
+        cl = []
+        for i, b in enumerate(c['bases']):
+            nm = 'Hz%d' % (i + 1)
+            cl.append([nm, ['Hz%d' % x for x in b], ['ca_' + nm.lower()], ['me_' + nm.lower()], ['sa_' + nm.lower()] if i % 2 else []])
+        hs.append({'classes': cl, 'leaf': 'Hz%d' % len(c['bases'])})
+    if len(hs) < 300:
+        raise MachineryError('too few hierarchies emitted: %d' % len(hs))
+    hs += [make_hierarchy(ctx.rng) for _ in range(100 if quick else 1500)]
+    hr = jutil.pmap(hierarchy_case, hs)
+    jutil.check_worker_errors(hr)
+    for r in hr:
+        if 'skip' in r:
+            continue
+        ctx.count('hierarchy_cases')
+        if 'exc' in r:
+            ctx.violation('attrs-crash:' + r['exc'], 'complete() raised after instance receiver', r)
+        elif r['missing']:
+            ctx.violation('attrs-missing:inherited', 'run-time attributes inherited through the class hierarchy are not '
+                          'offered: %s' % r['missing'], r)
     ctx.assumptions += ['fragment = longest identifier suffix of the text left of the cursor (regex of the harness)',
                         'class receivers (K.) are blocked in this tree by the absent typeshed (C01 known finding)']
     return None
